@@ -1,0 +1,16 @@
+//go:build verif
+
+package sample
+
+import "github.com/cronokirby/saferith"
+
+// VerifPrimeSource, when set by the verification harness, supplies the safe primes that Paillier returns
+// (so that CMP keygen/refresh can be run many times). Only compiled with the build tag verif.
+var VerifPrimeSource func() (p, q *saferith.Nat, ok bool)
+
+func verifPrimes() (p, q *saferith.Nat, ok bool) {
+	if VerifPrimeSource == nil {
+		return nil, nil, false
+	}
+	return VerifPrimeSource()
+}
